@@ -104,7 +104,7 @@ var c18Templates = map[string]string{
 	"toplevel.txt": "{% set v = 'own' %}{{ v }}[{{ leak }}]{% set leak = 'L' ~ x %}{% import 'macros.twig' as mm %}{{ mm.wrap(leak) }}",
 	// six templates deep, so that 64 callers hold several hundred includes open at the same time
 	"deep6.txt": "6({% include 'deep5.txt' %})", "deep5.txt": "5({% include 'deep4.txt' %})", "deep4.txt": "4({% include 'deep3.txt' %})",
-	"deep3.txt": "3({% include 'deep2.txt' %})", "deep2.txt": "2({% include 'deep1.txt' %})", "deep1.txt": "1({{ meet() }}{% for i in 1..3 %}{{ x }}{% endfor %})",
+	"deep3.txt": "3({% include 'deep2.txt' %})", "deep2.txt": "2({% include 'deep1.txt' %})", "deep1.txt": "1({{ meet() }}{% include 'reenter.txt' %}{% for i in 1..3 %}{{ x }}{% endfor %})", "reenter.txt": "R{{ x }}",
 	// explicit escape strategies, registered and not: first uses happen concurrently on the fresh shared environments
 	"strategies.html": "{{ x|escape('xml') }}{{ x|e('svg') }}{{ x|escape('js') }}{{ x|escape('nope') }}{{ x|escape('txt') }}{{ x|e }}",
 	// one name, different things in different templates: an import alias here, a context variable there; a macro
@@ -149,6 +149,15 @@ var c18Shared = append(make([]stick.Value, 0, 8), "s0", "s1")
 var c18SharedMap = map[string]stick.Value{"a": 1}
 
 func init() {
+	// every way in which the tokeniser or the parser refuses a template (C20's list), and errors at strings that
+	// hold interpolations: a failing parse has two goroutines winding down at once
+	for i, src := range c20Broken[2:] {
+		c18Templates[fmt.Sprintf("broken-%03d.html", i)] = src
+	}
+	for i, src := range []string{"line one\n{{ a \"x#{b}y\" }}\nline three", "{% block \"n#{a}\" %}{% endblock %}", "{% if a \"#{b}\" %}yes{% endif %}", "{{ \"#{a}\" \"#{b}\" }}", "{{ [1 \"x#{b}\"] }}", "{% for \"i#{x}\" in items %}{% endfor %}",
+		"{{ \"a#{b @ c}d\" }}", "{{ \"a#{b\" }}", "{{ \"a#{\"#{'x' @}\"}\" }}", "{% include \"p#{x}\" nonsense %}", "{{ x|f(\"a#{b}\" 1) }}"} {
+		c18Templates[fmt.Sprintf("broken-interp-%02d.txt", i)] = src
+	}
 	for _, c := range c18Ctx {
 		c["shared"] = c18Shared
 		c["sharedmap"] = c18SharedMap
@@ -293,6 +302,8 @@ func c18NewEnvs() (*stick.Env, *stick.Env) {
 		}
 	}
 	co.Filters["raw"] = func(ctx stick.Context, v stick.Value, args ...stick.Value) stick.Value { return v }
+	tw.Visitors = append(tw.Visitors, &c18reenter{tw})
+	co.Visitors = append(co.Visitors, &c18reenter{co})
 	return tw, co
 }
 
@@ -378,7 +389,27 @@ func (b *c18barrier) arrive() {
 	}
 }
 
-var c18meet atomic.Value // *c18barrier of the round in progress, or a nil *c18barrier
+var c18meet atomic.Value      // *c18barrier of the round in progress, or a nil *c18barrier
+var c18meetParse atomic.Value // the same for the callers that are parsing reenter.txt
+
+// c18reenter is a user's node visitor that uses the environment it is registered on: when the template
+// reenter.txt is parsed it parses another template through the same environment (as a visitor that validates
+// the templates an include names would). In the rounds in which every caller gets to that point it first waits
+// for the others, so that as many parses as there are callers are in progress - each inside another load - at the
+// same moment. It keeps no state.
+type c18reenter struct{ env *stick.Env }
+
+func (v *c18reenter) Enter(n parse.Node) {
+	m, ok := n.(*parse.ModuleNode)
+	if !ok || m.Origin != "reenter.txt" {
+		return
+	}
+	if b, _ := c18meetParse.Load().(*c18barrier); b != nil {
+		b.arrive()
+	}
+	v.env.Parse("d.txt")
+}
+func (v *c18reenter) Leave(parse.Node) {}
 
 // event log of the plain build
 var (
@@ -511,8 +542,10 @@ func (p *c18) Run(i int) (res fw.Result) {
 	}
 	if i%8 >= 6 {
 		c18meet.Store(&c18barrier{want: rd.goroutines, open: make(chan struct{})})
+		c18meetParse.Store(&c18barrier{want: rd.goroutines, open: make(chan struct{})})
 	} else {
 		c18meet.Store((*c18barrier)(nil))
+		c18meetParse.Store((*c18barrier)(nil))
 	}
 	start := make(chan struct{})
 	var wg sync.WaitGroup
